@@ -226,6 +226,9 @@ def generate(spec_dir, module, cfg, work, tag, marker="@@B", workers=8, simulate
     The spec prints behaviours from an invariant/constraint; TLC must end normally."""
     if simulate:
         workers = 1      # with a fixed -seed a single simulation worker is reproducible; several workers are not
+        m = re.match(r"num=(\d+)$", simulate)
+        if m:            # (the callers' numbers were chosen per worker, for four workers)
+            simulate = "num=%d" % (int(m.group(1)) * 4)
     rc, out = tlc(spec_dir, module, cfg, work, tag, workers=workers, simulate=simulate, timeout=timeout, env=env,
                   heap=heap, deadlock_off=True, extra=extra)
     if rc not in (0,) and not (simulate and rc == 124):
